@@ -1,7 +1,7 @@
 (* Session interpreter for the L5 correspondence and the compile dump (L4). *)
 From BL Require Import Base.Prelude Base.Floats Mach.Val Mach.Ops Mach.Func Mach.Var
      Lang.Token Lang.Lex Lang.Ast Lang.Parse Mach.Compile Mach.Listing Mach.Runtime
-     Drv.Show Drv.ShowLang.
+     Spec.Sem Drv.Show Drv.ShowLang.
 From Coq Require Import String.
 Local Open Scope N_scope.
 
@@ -87,6 +87,17 @@ Definition do_call (r : rt) (call : str) : res (rt * list str) :=
       do x <- rt_execute O r (num_of call); Ok (fst x, [show_event (snd x)])
   | 82 :: _ =>                                (* R<n> : until blocking *)
       run_until 3000 (num_of call) r []
+  | 65 :: rest =>                             (* A<q>:<hex> : answer a pending INPUT, then run *)
+      match r_state r with
+      | StInput =>
+          match split_on 58 rest [] with
+          | [q; h] =>
+              do x <- rt_enter O r (str_of_hex h);
+              run_until 3000 (match parse_udec q with Some n => n | None => 5000 end) (fst x) []
+          | _ => Ok (r, [s2l "?"])
+          end
+      | _ => Ok (r, [])
+      end
   | 73 :: _ => Ok (rt_interrupt r, [])        (* I *)
   | 71 :: _ => Ok (rt_get_listing r true, []) (* G : snapshot held *)
   | 103 :: _ => Ok (rt_get_listing r false, [])  (* g : snapshot dropped at once *)
@@ -177,4 +188,52 @@ Definition compile_dump (srcs : list str) (direct : option str) : str :=
       s2l " ierr=" ++ show_errs (pg_ind_errors p) ++
       s2l " derr=" ++ show_errs (pg_errors p)
   | _ => s2l "?"
+  end.
+
+(* ---------- the reference semantics as an oracle ---------- *)
+Fixpoint merge_out (evs : list sevent) (cur : str) (acc : list str) : list str :=
+  (* evs oldest first *)
+  let flush := match cur with [] => acc | _ => (s2l "P:" ++ hex_of_str cur) :: acc end in
+  match evs with
+  | [] => rev flush
+  | SePrint t :: r => merge_out r (cur ++ t) acc
+  | SeInput p caps :: r => merge_out r [] ((s2l "I:" ++ hex_of_str p ++ [58] ++ (if caps then [49] else [48])) :: flush)
+  | SeCls :: r => merge_out r [] (s2l "C" :: flush)
+  end.
+
+Definition show_halt (h : halt) : str :=
+  match h with
+  | HEnd => s2l "H:END"
+  | HError c l => s2l "H:ERR " ++ dec_of_N c ++ sp ++ dec_of_N l
+  | HNeedInput => s2l "H:NEEDINPUT"
+  | HUndefined => s2l "H:UNDEF"
+  | HFuel => s2l "H:FUEL"
+  end.
+
+(* srcs: program lines (sorted, distinct); flags: "1" = TRON before RUN; inputs: replies *)
+Definition sem_case (O : oracle) (srcs : list str) (tron : bool) (inputs : list str) : str :=
+  let parse_one (acc : option program_t) (src : str) : option program_t :=
+    match acc with
+    | None => None
+    | Some p =>
+        match line_new src with
+        | Ok (Some n, toks) =>
+            match parse (Some n) toks with
+            | Ok l => Some (p ++ [(n, l)])
+            | _ => None
+            end
+        | _ => None
+        end
+    end in
+  match fold_left parse_one srcs (Some []) with
+  | None => s2l "H:UNDEF"
+  | Some prog =>
+      let '(st, h) := sem_run O prog tron inputs 20000 in
+      (* at the end the interpreter starts a new line if the cursor is not in column 0 *)
+      let out := rev (s_out st) in
+      let tail := match h with
+                  | HEnd | HError _ _ => if 0 <? s_col st then [SePrint [10]] else []
+                  | _ => []
+                  end in
+      join [124] (merge_out (out ++ tail) [] [] ++ [show_halt h])
   end.
